@@ -249,6 +249,7 @@ func verifRunScript() {
 			body, _ := base64.StdEncoding.DecodeString(ev.Body)
 			name := strings.Replace(f.currentFilename(), "<REV>", fmt.Sprintf("-%06d", ev.ID), -1)
 			p := filepath.Join(opts.OutputDir, name)
+			mk.emit(map[string]interface{}{"m": "TOUCHING", "i": i, "path": p})
 			tf, err := os.OpenFile(p, os.O_WRONLY|os.O_CREATE|os.O_EXCL, 0o644)
 			if err == nil {
 				tf.Write(body)
